@@ -373,7 +373,19 @@ func decKey(X kyber.Point, enc, dec *pvss.PubVerShare) []*big.Int {
 }
 
 // newWorld runs the honest protocol and checks the honest clauses
+// value relations between the inputs of a PVSS run
+var worldRels = []string{"independent", "H = Base", "H = X_0 (trustee key equal to the base point H)", "X_1 = X_0 (two trustees with the same key)",
+	"secret 0", "secret 1 (t = 1: every decrypted share is the generator)", "H = -Base and X_0 = Base (key 1)"}
+
 func newWorld(e *env, r *vh.Rng, n, t, secretKind int, tag string) *world {
+	return newWorldRel(e, r, n, t, secretKind, 0, tag)
+}
+
+func newWorldRel(e *env, r *vh.Rng, n, t, secretKind, rel int, tag string) *world {
+	rel = rel % len(worldRels)
+	if rel != 0 {
+		tag = tag + " / " + worldRels[rel]
+	}
 	w := &world{e: e, n: n, t: t, tag: tag}
 	rep := e.rep
 	w.H = e.suite.Point().Mul(e.nonzero(r, true), nil)
@@ -382,8 +394,26 @@ func newWorld(e *env, r *vh.Rng, n, t, secretKind int, tag string) *world {
 	}
 	for i := 0; i < n; i++ {
 		xi := e.nonzero(r, i == 0 && r.Chance(30))
+		if rel == 3 && i == 1 {
+			xi = w.x[0].Clone()
+		}
+		if rel == 6 && i == 0 {
+			xi = e.suite.Scalar().One()
+		}
 		w.x = append(w.x, xi)
 		w.X = append(w.X, e.suite.Point().Mul(xi, nil))
+	}
+	switch rel {
+	case 1:
+		w.H = e.base()
+	case 2:
+		w.H = w.X[0].Clone()
+	case 4:
+		secretKind = 1
+	case 5:
+		secretKind = 2
+	case 6:
+		w.H = e.suite.Point().Neg(e.base())
 	}
 	switch secretKind % 4 {
 	case 0:
@@ -1356,7 +1386,11 @@ func seq(n int) []int {
 
 // ---------------------------------------------------------------- DLEQ
 
-func (e *env) dleqRound(r *vh.Rng, edge bool, tag string) {
+// value relations between the inputs of a DLEQ statement
+var dleqRels = []string{"independent", "H is G (same object)", "H equal clone of G", "G = H = Base", "H = k*G small k", "H = -G",
+	"x = 0 (both images neutral)", "H = G and x = 1", "H = G and x = 0", "H = G random x (xG == xH)"}
+
+func (e *env) dleqRound(r *vh.Rng, edge bool, rel int, tag string) {
 	rep := e.rep
 	pt := func() kyber.Point {
 		if edge && r.Chance(15) {
@@ -1366,6 +1400,32 @@ func (e *env) dleqRound(r *vh.Rng, edge bool, tag string) {
 	}
 	G, H := pt(), pt()
 	x := e.scalar(r, edge)
+	rel = rel % len(dleqRels)
+	tag = tag + " / " + dleqRels[rel]
+	if rel != 0 && G.Equal(e.null()) {
+		G = e.suite.Point().Mul(e.nonzero(r, false), nil)
+	}
+	switch rel {
+	case 1, 9:
+		H = G
+	case 2:
+		H = G.Clone()
+	case 3:
+		G, H = e.base(), e.base()
+	case 4:
+		H = e.suite.Point().Mul(e.suite.Scalar().SetInt64(int64(2+r.Intn(3))), G)
+	case 5:
+		H = e.suite.Point().Neg(G)
+	case 6:
+		x = e.suite.Scalar().Zero()
+	case 7:
+		H, x = G.Clone(), e.suite.Scalar().One()
+	case 8:
+		H, x = G, e.suite.Scalar().Zero()
+	}
+	if rel == 9 {
+		x = e.nonzero(r, false)
+	}
 	rp := func(extra map[string]interface{}) map[string]interface{} {
 		m := map[string]interface{}{"group": e.name, "tag": tag, "G": pstr(G), "H": pstr(H), "x": sstr(x)}
 		for k, v := range extra {
@@ -1553,13 +1613,37 @@ func (e *env) emptyCommitCase() {
 	}
 }
 
+// a PVSS run under a value relation, with the full single-field mutation matrix
+func relWorld(e *env, r *vh.Rng, n, t, rel int, kinds []int) {
+	w := newWorldRel(e, r, n, t, r.Intn(4), rel, "rel")
+	if w == nil {
+		return
+	}
+	e.rep.Dist("relation_world:" + worldRels[rel%len(worldRels)])
+	w.emitHonest()
+	w.oracleSubsets(r, 0, 1, 4)
+	pos := []int{r.Intn(n)}
+	switch rel % len(worldRels) {
+	case 2, 6:
+		pos = []int{0}
+	case 3:
+		// identical keys: a swap between the two trustees is not a change the verifier can see
+		pos = []int{1}
+		kinds = []int{0, 1, 2}
+	}
+	w.oracleEncMutations(r, pos, kinds)
+	w.oracleDecMutations(r, pos, kinds)
+	w.oracleForgery(r, pos[0])
+	w.oracleJointForgery(r, pos[0])
+}
+
 // ---------------------------------------------------------------- main
 
 func main() {
 	o := vh.ParseFlags()
 	rng := vh.NewRng(o.Seed)
 	rep := vh.NewReport("C13", o.Seed, o.Tier)
-	rep.Rule = "dlog group (order 2^61-1), model correspondence: every (n,t) with 2<=n<=6 (thorough 7), 1<=t<=n, secrets random/0/1/-1, exact EncShares output (shares, proofs, commitments) from replayed randomness, computeCommitments, global challenge, DecShare, VerifyEncShare/VerifyDecShare verdict classes, batch results and RecoverSecret result for: all ordered subsets of decrypted shares for n<=4 (all subsets + random orders above), simulated and joint forgeries (commitments first, challenge, then a statement element solved from the verification equation: decrypted share V by a cheating trustee, encrypted share sX by a cheating dealer), every single-field mutation (I,V,C,R,VG,VH; +1/zero-or-max/random/other trustee's value) and cross-trustee swap (proof, share, whole position, key) of encrypted and decrypted shares at up to 3 positions, altered keys, challenge and coefficient commitments, repeated shares, unequal lengths; NewDLEQProof/Batch/Verify on edge and random inputs with every single-field mutation. The hash oracle of the model is a table computed by the harness independently. Oracles: the same clauses evaluated on the implementation over the dlog group, Ed25519 and P-256 (n up to 10). distinct = distinct canonical case text; non-trivial = rejected inputs, recoveries with t>=2 from proper subsets or mutated lists, proofs"
+	rep.Rule = "dlog group (order 2^61-1), model correspondence: every (n,t) with 2<=n<=6 (thorough 7), 1<=t<=n, secrets random/0/1/-1, exact EncShares output (shares, proofs, commitments) from replayed randomness, computeCommitments, global challenge, DecShare, VerifyEncShare/VerifyDecShare verdict classes, batch results and RecoverSecret result for: all ordered subsets of decrypted shares for n<=4 (all subsets + random orders above), simulated and joint forgeries (commitments first, challenge, then a statement element solved from the verification equation: decrypted share V by a cheating trustee, encrypted share sX by a cheating dealer), every single-field mutation (I,V,C,R,VG,VH; +1/zero-or-max/random/other trustee's value) and cross-trustee swap (proof, share, whole position, key) of encrypted and decrypted shares at up to 3 positions, altered keys, challenge and coefficient commitments, repeated shares, unequal lengths; NewDLEQProof/Batch/Verify on edge and random inputs with every single-field mutation. Value relations between inputs (H = Base, H = X_0, X_1 = X_0, secret 0/1, H = -Base; for DLEQ: H same object / equal / Base / k*G / -G, x = 0, 1, xG == xH) each with the full mutation matrix. The hash oracle of the model is a table computed by the harness independently. Oracles: the same clauses evaluated on the implementation over the dlog group, Ed25519 and P-256 (n up to 10). distinct = distinct canonical case text; non-trivial = rejected inputs, recoveries with t>=2 from proper subsets or mutated lists, proofs"
 	cf := &vh.CaseFile{Header: "From Kyber Require Import PVSS.PvssSM PVSS.PvssRun.", Type: "case", Runner: "mismatches"}
 	id := 0
 	kindsAll := []int{0, 1, 2, 3}
@@ -1624,6 +1708,17 @@ func main() {
 				}
 			}
 		}
+		// value relations between the inputs: full mutation matrix in each configuration
+		for _, nt := range [][2]int{{2, 1}, {3, 2}, {4, 3}} {
+			for rel := 1; rel < len(worldRels); rel++ {
+				if !o.Thorough && (nt[0] == 4 || (nt[0] == 2 && rel != 2 && rel != 5 && rel != 6)) {
+					continue
+				}
+				r := rng.Fork()
+				e := newEnv(0, fmt.Sprintf("c13/dlog/rel/%d/%d/%d", o.Seed, nt[0], rel), rep, cf, &id, true)
+				relWorld(e, r, nt[0], nt[1], rel, kindsAll)
+			}
+		}
 		// DLEQ
 		e := newEnv(0, fmt.Sprintf("c13/dlog/dleq/%d", o.Seed), rep, cf, &id, true)
 		r := rng.Fork()
@@ -1632,7 +1727,10 @@ func main() {
 			nd = 200
 		}
 		for k := 0; k < nd; k++ {
-			e.dleqRound(r, k%2 == 0, fmt.Sprintf("dleq %d", k))
+			e.dleqRound(r, k%2 == 0, 0, fmt.Sprintf("dleq %d", k))
+		}
+		for k := 1; k < 2*len(dleqRels); k++ {
+			e.dleqRound(r, false, k, fmt.Sprintf("dleq rel %d", k))
 		}
 		for n := 0; n <= 5; n++ {
 			e.dleqBatchRound(r, n, [3]int{n, n, n}, "batch")
@@ -1698,10 +1796,22 @@ func main() {
 					}
 				}
 			}
+			for _, nt := range [][2]int{{2, 1}, {3, 2}} {
+				for rel := 1; rel < len(worldRels); rel++ {
+					r := rng.Fork()
+					e := newEnv(gk, fmt.Sprintf("c13/or/rel/%d/%d/%d/%d/%d", o.Seed, gk, round, nt[0], rel), rep, cf, &id, false)
+					relWorld(e, r, nt[0], nt[1], rel, kindsAll)
+					rep.Evaluations++
+				}
+			}
 			e := newEnv(gk, fmt.Sprintf("c13/or/dleq/%d/%d/%d", o.Seed, gk, round), rep, cf, &id, false)
 			r := rng.Fork()
 			for k := 0; k < 12; k++ {
-				e.dleqRound(r, k%2 == 0, fmt.Sprintf("oracle dleq %d", k))
+				e.dleqRound(r, k%2 == 0, 0, fmt.Sprintf("oracle dleq %d", k))
+				rep.Evaluations++
+			}
+			for k := 1; k < len(dleqRels); k++ {
+				e.dleqRound(r, false, k, fmt.Sprintf("oracle dleq rel %d", k))
 				rep.Evaluations++
 			}
 			e.dleqBatchRound(r, 4, [3]int{4, 4, 4}, "oracle batch")
